@@ -109,6 +109,12 @@ func init() {
 					c.OK(key, c.P.InstrPos(s.Instr), "every success path reaches the redistribution")
 					continue
 				}
+				// a write that follows the redistribution is fine when it stores the entry as
+				// re-read after the redistribution, with its Stake untouched (e.g. un-freeze)
+				if rereadAfterRedistribution(c, fn, s.Instr, redis) {
+					c.OK(key, c.P.InstrPos(s.Instr), "stores the entry re-read after the redistribution (stake not modified): delegate totals are those just computed")
+					continue
+				}
 				// audited: unchanged-stake path of StakeNewEntry
 				if t == pk+"Keeper.StakeNewEntry" && unchangedStakePath(s.Instr) {
 					c.Audit(key, c.P.InstrPos(s.Instr), "only the path with increase==false && decrease==false (stake equal to the previous stake) skips the redistribution: "+r.Witness)
@@ -214,6 +220,67 @@ func init() {
 		}
 		c.NotCovered("the sums themselves (self stake == vault delegation, TotalDelegations == sum of non-vault delegations); floor rounding of shares")
 	})
+}
+
+// rereadAfterRedistribution: the entry written by `write` comes from a GetStakeEntryCurrent
+// call that executes after a redistribution call on every path, and its Stake field is
+// not assigned in this function.
+func rereadAfterRedistribution(c *Ctx, fn *ssa.Function, write ssa.Instruction, redis func(ssa.Instruction) bool) bool {
+	v := lastArg(write)
+	ld, ok := v.(*ssa.UnOp)
+	if !ok {
+		return false
+	}
+	a, ok := ld.X.(*ssa.Alloc)
+	if !ok {
+		return false
+	}
+	refs := a.Referrers()
+	if refs == nil {
+		return false
+	}
+	var src *ssa.Call
+	for _, r := range *refs {
+		switch x := r.(type) {
+		case *ssa.Store:
+			if x.Addr != a {
+				continue
+			}
+			call, _ := callOfValue(x.Val)
+			if call == nil || ir.CalleeName(&call.Call) != getCur || src != nil {
+				return false
+			}
+			src = call
+		case *ssa.FieldAddr:
+			if ir.FieldKey(x) == "x/epochstorage/types.StakeEntry.Stake" && addrWrittenLocal(x) {
+				return false
+			}
+		}
+	}
+	if src == nil {
+		return false
+	}
+	// some redistribution call precedes the re-read on every path
+	found := false
+	ir.EachInstr(fn, func(in ssa.Instruction) {
+		if redis(in) && instrBefore(in, src) {
+			found = true
+		}
+	})
+	return found
+}
+
+func addrWrittenLocal(v ssa.Value) bool {
+	refs := v.Referrers()
+	if refs == nil {
+		return false
+	}
+	for _, r := range *refs {
+		if st, ok := r.(*ssa.Store); ok && st.Addr == v {
+			return true
+		}
+	}
+	return false
 }
 
 func lineOf(pos string) string {
